@@ -51,12 +51,7 @@ def bytes_list(s):
     return "[" + "; ".join(str(b) for b in s.encode()) + "]"
 
 
-def main():
-    out = []
-    w = out.append
-    w("(* Consts.v — GENERATED by tools/translate.py from /repo's working tree on every run.  Do not edit. *)")
-    w("From Flussab Require Import Base.")
-    w("")
+def sec_reader_writer(w):
     # ---- reader / writer buffer sizes
     rd = read("flussab/src/deferred_reader.rs")
     wr = read("flussab/src/deferred_writer.rs")
@@ -70,6 +65,8 @@ def main():
     w("Definition reader_realign_factor : N := %d." % realign)
     w("Definition reader_shrink_factor : N := %d." % int(m))
     w("")
+
+def sec_dimacs_max(w):
     # ---- Dimacs::MAX_DIMACS per literal type (64-bit target)
     dt = read("flussab-cnf/src/dimacs_trait.rs")
     w("(* Dimacs::MAX_DIMACS on a 64-bit target *)")
@@ -91,6 +88,8 @@ def main():
     for ty in ("i8", "i16", "i32", "i64", "isize"):
         w("Definition max_dimacs_%s : Z := %d%%Z." % (ty, vals[ty]))
     w("")
+
+def sec_lit_max_code(w):
     # ---- AIGER Lit::MAX_CODE
     lt = read("flussab-aiger/src/lit.rs")
     one(r"const MAX_CODE: usize = <\$t>::MAX as usize;", lt, "Lit::MAX_CODE")
@@ -101,6 +100,8 @@ def main():
     for ty in ("u8", "u16", "u32", "u64", "usize"):
         w("Definition max_code_%s : N := %d." % (ty, TYPE_MAX[ty]))
     w("")
+
+def sec_dimacs_words(w):
     # ---- DIMACS header keywords and solver-log words
     w("(* fixed words of the DIMACS family and of solver logs *)")
     for f, kw in (("cnf", "cnf"), ("wcnf", "wcnf"), ("gcnf", "gcnf")):
@@ -119,6 +120,8 @@ def main():
     one(r'text::fixed\(input\.reader\(\), 0, b"c "\)', tk, "strict comment introducer")
     w("Definition log_comment : bytes := %s." % bytes_list("c "))
     w("")
+
+def sec_aiger_header(w):
     # ---- AIGER header: magic words and field order (parser and writer)
     order = ["max_var_index", "input_count", "latch_count", "output_count", "and_gate_count", "bad_state_property_count",
              "invariant_constraint_count", "justice_property_count", "fairness_constraint_count"]
@@ -131,13 +134,15 @@ def main():
         got = [g for g in got]
         if got != order:
             raise Shape("%s: header fields are parsed in the order %r" % (f, got))
-        wh = one(r"pub fn write_header\(&mut self, header: &Header\) \{\s*let fields = \[(.*?)\];", src, "write_header of " + f)
+        wh = one(r"pub fn write_header\(&mut self, header: &Header\) \{(?:(?!\n    \}).)*?let fields = \[(.*?)\];", src, "write_header of " + f)
         wgot = re.findall(r"header\.(\w+)", wh)
         if wgot != order:
             raise Shape("%s: header fields are written in the order %r" % (f, wgot))
         w("Definition magic_%s : bytes := %s.   (* %s *)" % (f, bytes_list(magic), magic))
     w("Definition aiger_header_fields : N := %d." % len(order))
     w("")
+
+def sec_btor2_names(w):
     # ---- BTOR2 operator names (writer) and keywords (parser)
     b2 = read("flussab-btor2/src/btor2.rs")
     tkb = read("flussab-btor2/src/token.rs")
@@ -164,6 +169,9 @@ def main():
     if bad:
         w("(* mismatching entries: %r *)" % (bad,))
     w("")
+
+def sec_btor2_keywords(w):
+    tkb = read("flussab-btor2/src/token.rs")
     # ---- BTOR2 keyword tables of the parser (token.rs: node_token / sort_token), in source order
     for fn, cname in (("node_token", "btor2_node_keywords"), ("sort_token", "btor2_sort_keywords")):
         body = one(r"pub fn %s\(input: &mut LineReader\) -> Parsed<\w+, ParseError> \{\s*"
@@ -185,6 +193,9 @@ def main():
         w("Definition %s : list (bytes * bytes) :=" % cname)
         w("  [" + ";\n   ".join("(%s, %s)" % (bytes_list(k), bytes_list(v)) for k, v in rows) + "].")
         w("")
+
+def sec_btor2_lowercase(w):
+    tkb = read("flussab-btor2/src/token.rs")
     # ---- the 8-byte lowercase scanner (ascii_lowercase_u64): constants of the SWAR test
     one(r"if reader\.buf_len\(\) < offset \+ 8 \{\s*return ascii_lowercase_u64_cold\(reader, offset\);\s*\}", tkb, "lowercase fast-path test")
     one(r"const REPEAET: u64 = 0x0101010101010101;", tkb, "lowercase REPEAET")
@@ -204,12 +215,45 @@ def main():
     w("Definition btor2_lc_large : N := %d." % int(big, 16))
     w("Definition btor2_lc_mask : N := %d." % int(msk, 16))
     w("")
+
+
+
+SECTIONS = [("reader_writer", sec_reader_writer), ("dimacs_max", sec_dimacs_max), ("lit_max_code", sec_lit_max_code), ("dimacs_words", sec_dimacs_words), ("aiger_header", sec_aiger_header), ("btor2_names", sec_btor2_names), ("btor2_keywords", sec_btor2_keywords), ("btor2_lowercase", sec_btor2_lowercase)]
+
+
+def main():
+    old_text = open(os.path.join(ROOT, "coq", "Consts.v")).read() if os.path.exists(os.path.join(ROOT, "coq", "Consts.v")) else ""
+    out = []
+    failed = []
+    out.append("(* Consts.v — GENERATED by tools/translate.py from /repo's working tree on every run.  Do not edit. *)")
+    out.append("From Flussab Require Import Base.")
+    out.append("")
+    tkb = None
+    for name, fn in SECTIONS:
+        sec = []
+        begin, end = "(* == section %s == *)" % name, "(* == end %s == *)" % name
+        try:
+            fn(sec.append)
+        except (Shape, OSError) as e:
+            # the source no longer has the shape this section expects: keep the last good text of the section (the
+            # other sections stay exact) and report it; check.py decides which properties this concerns
+            m = re.search(re.escape(begin) + r"\n(.*?)" + re.escape(end), old_text, flags=re.S)
+            if not m:
+                raise Shape("%s: %s (and no previous text of this section to fall back to)" % (name, e))
+            sec = m.group(1).rstrip("\n").split("\n")
+            failed.append((name, str(e)))
+        out.append(begin)
+        out.extend(sec)
+        out.append(end)
+        out.append("")
     text = "\n".join(out) + "\n"
     path = os.path.join(ROOT, "coq", "Consts.v")
     old = open(path).read() if os.path.exists(path) else None
     if old != text:
         open(path, "w").write(text)
-    return 0
+    for name, e in failed:
+        print("translate.py: section %s: source shape not as expected: %s" % (name, e))
+    return 3 if failed else 0
 
 
 if __name__ == "__main__":
